@@ -18,6 +18,7 @@ def check(tree, rep, tier='quick', seed=0):
     rep.exhaustive = True
     rep.assumptions = ['NOT decided: what pdftk does with the form data; non-ASCII text']
     core = get_core(tree)
+    R.k36_mutable_defaults_untouched(core, rep)   # nothing survives from one solve / fill to the next through a default argument
     R.k23_filler(core, rep)
     R.k23f_filling_keeps_no_state(core, rep)
     R.k23g_box_value_set_in_every_round(core, rep)
